@@ -83,6 +83,9 @@ func (o *Obl) Query(header string, model bool) string {
 	sb.WriteString("(assert (not " + o.Goal + "))\n(check-sat)\n")
 	if model {
 		sb.WriteString("(get-model)\n")
+		for _, it := range c.inputTerms {
+			sb.WriteString("(echo \"INPUT " + it.Label + "\")\n(get-value (" + it.S + "))\n")
+		}
 	}
 	return sb.String()
 }
@@ -240,6 +243,37 @@ func (o *Obl) Solve(header string, opts SolveOpts) {
 	}
 }
 
+// candidateModel: a failed proof usually ends in "unknown" (quantified prelude axioms). For replay, search a
+// model of the same query without the quantified axioms: the result is only a candidate input - it counts for
+// nothing unless the replay on the real code reproduces the violation.
+func (o *Obl) candidateModel(header string, opts SolveOpts) {
+	if o.Expect != "unsat" || o.ctx == nil || len(o.ctx.inputTerms) == 0 || (o.Result != "unknown" && o.Result != "timeout") {
+		return
+	}
+	name := sanitize(o.Func + "__" + o.Name)
+	if len(name) > 150 {
+		name = name[len(name)-150:]
+	}
+	mfile := filepath.Join(opts.Dir, name+".cand.smt2")
+	os.WriteFile(mfile, []byte(o.Query(lightHeader(header), true)), 0644)
+	for _, s := range solvers {
+		if s.Name == "z3-new" {
+			oo := opts
+			oo.TimeoutS = 5
+			c2, cancel2 := context.WithTimeout(context.Background(), 10*time.Second)
+			r, text, _ := runSolver(c2, s, mfile, oo)
+			cancel2()
+			if os.Getenv("GOVC_DEBUG") != "" {
+				fmt.Fprintln(os.Stderr, "candidate model search:", o.Name, r, len(text))
+			}
+			if r == "sat" {
+				o.Model = text
+				o.Candidate = true
+			}
+		}
+	}
+}
+
 func SolveAll(obls []*Obl, header string, opts SolveOpts, workers int) {
 	var wg sync.WaitGroup
 	ch := make(chan *Obl)
@@ -249,6 +283,7 @@ func SolveAll(obls []*Obl, header string, opts SolveOpts, workers int) {
 			defer wg.Done()
 			for o := range ch {
 				o.Solve(header, opts)
+				o.candidateModel(header, opts)
 				if o.Pre != nil && o.Result == "unsat" {
 					// the path is infeasible after the call: an alarm only if it was feasible before it
 					o.Pre.Solve(header, opts)
